@@ -740,3 +740,15 @@ package consensus
 //@ func validateSignatures
 //@   prop C10 C03
 //@   requires ms.base.Network != nil
+
+//@ func indicesInRange
+//@   prop C10
+//@   requires n >= 0
+//@   invariant loop#1 @checked forall j in 0..$n :: idx[j] < n
+//@   ensures @true-only-in-range result ==> idxInRange(idx, n)
+//@   ensures @false-only-out-of-range idxInRange(idx, n) ==> result
+
+//@ func coveredFieldsInRange
+//@   prop C10
+//@   ensures @true-only-in-range result ==> cfInRange(txn, cf)
+//@   ensures @false-only-out-of-range cfInRange(txn, cf) ==> result
